@@ -51,6 +51,7 @@ def draw_cfg(st):
         "n_actors": 1,
         "p_clock_jump": [0.0, 0.05][st.choose(2, "clockjump")],
         "check_context": True,
+        "w_handler": st.choose(2, "handler"),
     }
     # swarm: switch some op kinds / styles off for this run
     styles = [i for i in range(len(P.ACT_STYLES)) if i == 0 or st.choose(3, "style-on")]
